@@ -3,5 +3,5 @@
 import json, sys
 pid, d = sys.argv[1], sys.argv[2]
 p = [json.loads(l) for l in open('/verif/properties.jsonl') if json.loads(l)['id'] == pid][0]
-t = open('/verif/tools/seeder_prompt.txt').read()
+t = open('/verif/tools/seeder_prompt_r4.txt').read()
 print(t.replace('{DIR}', d).replace('{ID}', pid).replace('{TITLE}', p['title']).replace('{STATEMENT}', p['statement']).replace('{QUANT}', p['quantifier']['text']))
